@@ -37,7 +37,7 @@ def random_specs(rng, n):
         vs = [Variant(ident=i, disabled=rng.random() < 0.25) for i in rand_idents(rng, nv)]
         if all(v.disabled for v in vs):
             vs[0].disabled = False
-        out.append(EnumSpec("R%d" % k, vs, role="random", note="random"))
+        out.append(decorate(rng, EnumSpec("R%d" % k, vs, role="random", note="random")))
     return out
 
 
